@@ -8,6 +8,7 @@ import (
 	"regexp"
 	"runtime"
 	"sort"
+	"strconv"
 	"strings"
 	"sync"
 	"testing"
@@ -83,22 +84,22 @@ func (c *simChan) take() [][]byte {
 
 // Outcome classes of a single run (before any property-specific oracle).
 const (
-	OutOK         = "ok"
-	OutDeadlock   = "deadlock"    // quiescent, lock waiters, nothing runnable
-	OutStuck      = "stuck"       // quiescent, a request unanswered, nothing can make progress
-	OutBudget     = "step-budget" // scheduler step budget exhausted
-	OutInvalid    = "invalid"     // the scenario is not a conformant message sequence (generator/minimiser artefact)
-	OutRecovered  = "swallowed-panic"
-	OutBadReply   = "error-reply"
+	OutOK        = "ok"
+	OutDeadlock  = "deadlock"    // quiescent, lock waiters, nothing runnable
+	OutStuck     = "stuck"       // quiescent, a request unanswered, nothing can make progress
+	OutBudget    = "step-budget" // scheduler step budget exhausted
+	OutInvalid   = "invalid"     // the scenario is not a conformant message sequence (generator/minimiser artefact)
+	OutRecovered = "swallowed-panic"
+	OutBadReply  = "error-reply"
 )
 
 // Answer is the reply to one request op.
 type Answer struct {
 	Op     int    `json:"op"`
 	Method string `json:"method"`
-	Result string `json:"result"`          // normalised JSON of the result
-	Raw    string `json:"raw,omitempty"`   // raw result (kept only on demand)
-	Err    string `json:"err,omitempty"`   // JSON-RPC error, if any
+	Result string `json:"result"`        // normalised JSON of the result
+	Raw    string `json:"raw,omitempty"` // raw result (kept only on demand)
+	Err    string `json:"err,omitempty"` // JSON-RPC error, if any
 	Done   bool   `json:"done"`
 	Steps  int    `json:"steps,omitempty"` // scheduler steps between send and reply
 }
@@ -117,6 +118,7 @@ type RunResult struct {
 	Tape      []int               `json:"tape,omitempty"`
 	SimMillis int64               `json:"sim_ms"`
 	Skipped   []int               `json:"skipped,omitempty"` // ops the client model could not perform
+	SaveTexts map[int]string      `json:"-"`                 // op index of a save -> the text it wrote and announced
 	Probes    map[string]int      `json:"probes,omitempty"`
 	Log       []string            `json:"log,omitempty"`
 }
@@ -169,30 +171,30 @@ type pendingEvt struct {
 
 // Engine executes one scenario inside a bubble.
 type Engine struct {
-	sc      *Scenario
-	ch      *simChan
-	res     *RunResult
-	hooks   Hooks
-	nextID  int
-	byID    map[int]*Answer
-	sentAt  map[int]int
-	Open    map[string][]byte // client model: path (relative) -> buffer text
-	Saved   map[string]bool   // buffer equals disk
+	sc     *Scenario
+	ch     *simChan
+	res    *RunResult
+	hooks  Hooks
+	nextID int
+	byID   map[int]*Answer
+	sentAt map[int]int
+	Open   map[string][]byte // client model: path (relative) -> buffer text
+	Saved  map[string]bool   // buffer equals disk
 	// External marks open documents whose disk file was changed by the world (not by an edit of
 	// the buffer) so that buffer and disk diverged without any "unsaved edit"; cleared by save/close.
 	External map[string]bool
 	// Reverted marks open documents whose buffer was brought back to the disk text by a didChange
 	// (undo) rather than by a save.
-	Reverted map[string]bool
-	version map[string]int
-	events  []pendingEvt
-	budget  int
-	failed  bool
+	Reverted     map[string]bool
+	version      map[string]int
+	events       []pendingEvt
+	budget       int
+	failed       bool
 	cycleSamples [][]string
-	initRefused bool
-	connClosed  bool
-	start   time.Time
-	curOp   int
+	initRefused  bool
+	connClosed   bool
+	start        time.Time
+	curOp        int
 }
 
 // URI returns the document URI of a workspace-relative path.
@@ -487,11 +489,23 @@ func (e *Engine) exec(i int, op *Op) {
 			e.res.Skipped = append(e.res.Skipped, i)
 			return
 		}
+		if op.NoWrite {
+			if op.Text != nil {
+				cur = []byte(*op.Text)
+			}
+			e.sendRaw("textDocument/didSave", map[string]interface{}{"textDocument": map[string]interface{}{"uri": URI(op.Path)}, "text": string(cur)}, false, i)
+			settle()
+			return
+		}
 		existed := simfs.Exists(Abs(op.Path))
 		simfs.WriteFile(Abs(op.Path), cur)
 		e.Saved[op.Path] = true
 		delete(e.External, op.Path)
 		delete(e.Reverted, op.Path)
+		if e.res.SaveTexts == nil {
+			e.res.SaveTexts = map[int]string{}
+		}
+		e.res.SaveTexts[i] = string(cur)
 		if !op.NoEvt {
 			if existed {
 				e.queueEvent(op.Path, 2)
@@ -663,6 +677,8 @@ func (e *Engine) exec(i int, op *Op) {
 }
 
 // Query executes request ops synchronously (oracle query batteries) and returns their answers.
+var traceRuns int
+
 func (e *Engine) Query(ops []Op) []*Answer {
 	var out []*Answer
 	for k := range ops {
@@ -860,7 +876,16 @@ func runInBubble(t *testing.T, sc *Scenario, cfg simrt.Config, hooks Hooks, res 
 		res.Tape = simrt.RecordedTape()
 		res.Stats = simrt.Snapshot()
 		if f := os.Getenv("VERIF_TRACE"); f != "" {
-			os.WriteFile(f, []byte(strings.Join(res.Stats.Trace, "\n")), 0644)
+			// VERIF_TRACE_RUN selects which run of the check is written (default 1: for C10 the
+			// concurrent one; 2 is the first sequential order, ...)
+			traceRuns++
+			want, _ := strconv.Atoi(os.Getenv("VERIF_TRACE_RUN"))
+			if want == 0 {
+				want = 1
+			}
+			if traceRuns == want {
+				os.WriteFile(f, []byte(strings.Join(res.Stats.Trace, "\n")), 0644)
+			}
 			res.Stats.Trace = nil
 		}
 		res.FsFired = simfs.Fired()
@@ -878,7 +903,6 @@ func runInBubble(t *testing.T, sc *Scenario, cfg simrt.Config, hooks Hooks, res 
 		}
 	})
 }
-
 
 var stackFrameRe = regexp.MustCompile(`(?m)^(luahelper-lsp/[^\s(]+(?:\([^)]*\))?[^\s(]*)\(`)
 
